@@ -241,6 +241,13 @@ fn scenario(ctx: &Ctx, idx: u64, rep: &mut Report) {
     if rng.chance(2, 3) {
         acts.insert(0, Act::Call(0, Op::Configure, 0));
     }
+    // one scenario is a LONG transfer: 20 pages of the largest front sign, 300 data chunks in a row through the serial bus
+    // and the bridge (nine seconds of pacing) — more than any 8-bit tally of consecutive chunks holds
+    if idx == 7 {
+        types[0] = 0;
+        acts = vec![Act::Call(0, Op::Configure, 0), Act::Call(0, Op::SendPages, 20), Act::Call(0, Op::Show, 0)];
+        rep.count("long_transfers_over_the_wire");
+    }
     // every fourth scenario is the full legal tour of one sign (every operation succeeds on a healthy path, so every
     // kind of reply — each acknowledgement, each in-progress and final state — crosses the bridge), with the random
     // acts appended behind it
@@ -298,7 +305,7 @@ fn scenario(ctx: &Ctx, idx: u64, rep: &mut Report) {
         rep.seen("types_used", ty as u64);
         rep.seen("ops_used", match op { Op::Configure => 0, Op::ConfigureIfNeeded => 1, Op::SendPages => 2, Op::Show => 3, Op::LoadNext => 4, Op::ShutDown => 5 });
         // keep the paced path short: at most 2 pages, and only 1 for the large types
-        let np = if TYPES[ty].w * TYPES[ty].h > 1000 { np.min(1) } else { np };
+        let np = if idx != 7 && TYPES[ty].w * TYPES[ty].h > 1000 { np.min(1) } else { np };
         let pages = mk_pages(ty, &mut rng, np);
         let wire_sign = ctl::mk_sign(rig.serial.clone(), addrs[who], ty);
         let direct_sign = ctl::mk_sign(direct.clone(), addrs[who], ty);
@@ -322,6 +329,9 @@ fn scenario(ctx: &Ctx, idx: u64, rep: &mut Report) {
             bad.push(("sign_state_differs", format!("sign {:04X}: over the wire {}; directly {}", addrs[k], oa[k].show(), ob[k].show())));
         }
         if a.is_ok() {
+            if idx == 7 && op == Op::SendPages {
+                rep.count("long_transfers_that_succeeded_on_both_paths");
+            }
             rep.count("ops_succeeded_on_both_paths");
             if idx % 4 == 0 {
                 rep.count("tour_ops_succeeded");
@@ -632,6 +642,7 @@ pub fn run(ctx: &Ctx) -> Outcome {
         floor("undecodable lines at the bridge", report.get("bridge_undecodable_lines") > 100, report.get("bridge_undecodable_lines")),
         floor("I/O faults at the bridge's own port (read fault at every byte, write fault at every call)", report.get("bridge_read_faults") > 100 && report.get("bridge_write_faults") > 50, report.get("bridge_write_faults")),
         floor("scenarios over a line whose writes block longer than the pacing pause", report.get("scenarios_over_a_slow_line") >= 20, report.get("scenarios_over_a_slow_line")),
+        floor("a transfer of 300 data chunks in a row over the wire", report.get("long_transfers_over_the_wire") == 1 && report.get("long_transfers_that_succeeded_on_both_paths") == 1, format!("{} / {} succeeded on both paths", report.get("long_transfers_over_the_wire"), report.get("long_transfers_that_succeeded_on_both_paths"))),
         floor("70 000 messages through one serial bus and one bridge", report.get("marathon_messages_on_both_paths") == 70_000, report.get("marathon_messages_on_both_paths")),
         floor("bridge pumps checked", report.get("bridge_pumps_checked") > 1000, report.get("bridge_pumps_checked")),
     ];
